@@ -9,8 +9,11 @@ import (
 	"fmt"
 	"os"
 	"reflect"
+	"runtime"
+	"sort"
 	"sync"
 	"sync/atomic"
+	"time"
 
 	z "github.com/Oudwins/zog"
 
@@ -74,7 +77,14 @@ func main() {
 	var jobs []*job
 	for i := 0; i < *nSchemas; i++ {
 		g := &eng.Gen{R: root.Fork(), NoPosts: true} // PostTransform gating is order dependent (known finding D19)
+		if i%4 == 3 {
+			// every entry point has its own boilerplate: Preprocess and Custom schemas at top level too
+			g.TopAll, g.Pre = true, true
+		}
 		schemaNode := g.Node(0)
+		if i%4 == 3 {
+			schemaNode = g.Case(i).Schema
+		}
 		rec := eng.NewRecorder()
 		schema := eng.Build(schemaNode, rec)
 		// several inputs per shared schema
@@ -258,6 +268,40 @@ func main() {
 			firstMismatch.CompareAndSwap(nil, fmt.Sprintf("case %d\nalone:      %.600s\nconcurrent: %.600s", o.job, jobs[o.job].want, o.got))
 		}
 	}
+	// RAW ENTRY POINTS: every Parse / Validate entry point of every schema kind has its own copy of the
+	// acquire / defer-release boilerplate; all of them overlap here, each result compared with the same call alone
+	{
+		eps := rawEntryPoints()
+		got := make([][]string, len(eps))
+		var mu sync.Mutex
+		var rw sync.WaitGroup
+		for w := 0; w < 8; w++ {
+			rw.Add(1)
+			go func(w int) {
+				defer rw.Done()
+				r := rng.New(*seed*77 + uint64(w))
+				for k := 0; k < 1500; k++ {
+					i := r.Intn(len(eps))
+					res := eps[i].run()
+					mu.Lock()
+					got[i] = append(got[i], res)
+					mu.Unlock()
+					atomic.AddInt64(&done, 1)
+				}
+			}(w)
+		}
+		rw.Wait()
+		for i, e := range eps {
+			want := e.run()
+			for _, g := range got[i] {
+				if g != want {
+					mism++
+					firstMismatch.CompareAndSwap(nil, fmt.Sprintf("entry point %s\nalone:      %s\nconcurrent: %s", e.name, want, g))
+					break
+				}
+			}
+		}
+	}
 	if w := eng.EnumsIntact(); w != "" {
 		mism++
 		firstMismatch.CompareAndSwap(nil, "an execution wrote into the enum slice given to OneOf: "+w)
@@ -274,5 +318,83 @@ func main() {
 	_ = reflect.TypeOf
 	if mism > 0 {
 		os.Exit(1)
+	}
+}
+
+type entryPoint struct {
+	name string
+	run  func() string
+}
+
+func canonList(l z.ZogIssueList) string {
+	items := []string{}
+	for _, is := range l {
+		items = append(items, fmt.Sprintf("%s|%s|%s", is.Path, is.Code, is.Message))
+	}
+	sort.Strings(items)
+	return fmt.Sprint(items)
+}
+
+func canonMap(m z.ZogIssueMap) string {
+	items := []string{}
+	for k, l := range m {
+		if k == "$first" {
+			continue
+		}
+		for _, is := range l {
+			items = append(items, fmt.Sprintf("%s=%s|%s|%s", k, is.Path, is.Code, is.Message))
+		}
+	}
+	sort.Strings(items)
+	return fmt.Sprint(items)
+}
+
+// rawEntryPoints: one failing call per Parse / Validate entry point of every schema kind, built with zog directly
+func rawEntryPoints() []entryPoint {
+	type rec struct {
+		Name string
+		Tags []string
+		In   struct{ City string }
+	}
+	yield := func(v any, ctx z.Ctx) bool { runtime.Gosched(); return true }
+	strct := z.Struct(z.Schema{"name": z.String().Required().TestFunc(yield).Min(3), "tags": z.Slice(z.String().TestFunc(yield).Min(2)), "in": z.Struct(z.Schema{"city": z.String().Required()})})
+	bad := map[string]any{"name": "x", "tags": []any{"ok", "a", "b"}, "in": map[string]any{}}
+	pre := z.Preprocess(func(v []any, ctx z.Ctx) ([]string, error) {
+		out := []string{}
+		for _, x := range v {
+			out = append(out, fmt.Sprint(x))
+		}
+		runtime.Gosched() // user callbacks may block or yield: the call is descheduled while it holds its objects
+		return out, nil
+	}, z.Slice(z.String().Min(2).TestFunc(func(v any, ctx z.Ctx) bool { runtime.Gosched(); return true })))
+	vpre := z.Preprocess(func(v *int, ctx z.Ctx) (int, error) { return *v, nil }, z.Int().GT(5))
+	cust := z.CustomFunc(func(p *int, ctx z.Ctx) bool { return *p > 5 }, z.Message("too small"))
+	return []entryPoint{
+		{"String.Parse", func() string { var d string; return canonList(z.String().Min(5).Email().Parse("ab", &d)) + d }},
+		{"String.Validate", func() string { d := "ab"; return canonList(z.String().Min(5).Validate(&d)) }},
+		{"Int.Parse", func() string { var d int; return canonList(z.Int().GT(5).LT(0).Parse(3, &d)) }},
+		{"Int.Validate", func() string { d := 1; return canonList(z.Int().GT(5).Validate(&d)) }},
+		{"Float32.Parse", func() string { var d float32; return canonList(z.Float32().GT(5).Parse("1.5", &d)) }},
+		{"Int64.Validate", func() string { d := int64(1); return canonList(z.Int64().GT(5).Validate(&d)) }},
+		{"Bool.Parse", func() string { var d bool; return canonList(z.Bool().True().Parse("false", &d)) }},
+		{"Bool.Validate", func() string { d := true; return canonList(z.Bool().False().Validate(&d)) }},
+		{"Time.Parse", func() string {
+			var d time.Time
+			return canonList(z.Time().After(time.Unix(9, 0)).Parse(time.Unix(5, 0), &d))
+		}},
+		{"Time.Validate", func() string { d := time.Unix(5, 0); return canonList(z.Time().After(time.Unix(9, 0)).Validate(&d)) }},
+		{"Slice.Parse", func() string {
+			var d []string
+			return canonMap(z.Slice(z.String().Min(2)).Min(9).Parse([]any{"ok", "a", "b"}, &d)) + fmt.Sprint(d)
+		}},
+		{"Slice.Validate", func() string { d := []string{"ok", "a"}; return canonMap(z.Slice(z.String().Min(2)).Validate(&d)) }},
+		{"Struct.Parse", func() string { var d rec; return canonMap(strct.Parse(bad, &d)) + fmt.Sprint(d) }},
+		{"Struct.Validate", func() string { d := rec{Name: "x", Tags: []string{"a"}}; return canonMap(strct.Validate(&d)) }},
+		{"Ptr.Parse", func() string { var d *rec; return canonMap(z.Ptr(strct).Parse(bad, &d)) }},
+		{"Ptr.Validate", func() string { d := &rec{Name: "x", Tags: []string{"a"}}; return canonMap(z.Ptr(strct).Validate(&d)) }},
+		{"Custom.Parse", func() string { var d int; return canonList(cust.Parse(1, &d)) }},
+		{"Custom.Validate", func() string { d := 1; return canonList(cust.Validate(&d)) }},
+		{"Preprocess.Parse", func() string { var d []string; return canonList(pre.Parse([]any{"ok", 1, "b"}, &d)) + fmt.Sprint(d) }},
+		{"Preprocess.Validate", func() string { d := 1; return canonList(vpre.Validate(&d)) }},
 	}
 }
